@@ -62,6 +62,7 @@ Record wl_case := {
   k_row : string;                     (* Wordlist(..., row=, col=) *)
   k_col : string;
   k_meta : list (string * cell);      (* the non-integer keys of the source dictionary *)
+  k_raw : option (list (Z * list raw)); (* a written file: the rows as read_qlc delivers them (strings) *)
   k_lowk : list (Z * Z);
   k_rawk : list (Z * Z);
   k_q0 : queries;
@@ -155,7 +156,12 @@ Fixpoint run_steps (st : option wl) (steps : list (op * queries * option snapsho
   end.
 
 Definition run_model (c : wl_case) : option snapshot * list (option snapshot) * list (list (Z * Z)) :=
-  match build_gen wordlist_rc (keys_of (k_lowk c) (k_rawk c)) (k_hdr c) (k_data c) (k_row c) (k_col c) (k_meta c) with
+  match (match k_raw c with
+         | Some rawrows => load_file wordlist_rc wordlist_rc_kinds (keys_of (k_lowk c) (k_rawk c)) (k_hdr c) rawrows
+                                     (k_row c) (k_col c) (k_meta c)
+         | None => build_gen wordlist_rc (keys_of (k_lowk c) (k_rawk c)) (k_hdr c) (k_data c)
+                             (k_row c) (k_col c) (k_meta c)
+         end) with
   | None => (None, map (fun _ => None) (k_steps c), [])
   | Some w => let r := run_steps (Some w) (k_steps c) in (Some (snapshot_of w (k_q0 c)), fst r, snd r)
   end.
